@@ -124,17 +124,21 @@ structure Idx where
   txns : List (Nat × (Nat × Nat))
   volume : Nat      -- params.TxCacheVolume
   interval : Nat    -- TrimmingInterval
+  memoryFirst : Bool -- params.MemoryFirst: the cache is switched off (nothing stored, deleted or trimmed)
 deriving Repr
 
 /-- `setTxn` (`cacheable` = not MemoryFirst and at most 100 inputs) -/
 def Idx.set (s : Idx) (cacheable : Bool) (h height tx : Nat) : Idx :=
+  if s.memoryFirst then s else
   if cacheable then { s with txns := setKey s.txns h (height, tx) } else s
 
-def Idx.delete (s : Idx) (h : Nat) : Idx := { s with txns := dropKey s.txns h }
+def Idx.delete (s : Idx) (h : Nat) : Idx :=
+  if s.memoryFirst then s else { s with txns := dropKey s.txns h }
 
 /-- `trim`: over `volume + interval` entries ⇒ delete arbitrary entries until `volume - 1`
     are left (the Go loop deletes `len - volume + 1`). -/
 def Idx.trim (s : Idx) (victims : List Nat) : Idx :=
+  if s.memoryFirst then s else
   if s.txns.length > s.volume + s.interval then
     { s with txns := evictTo (s.volume - 1) s.txns.length victims s.txns }
   else s
@@ -237,6 +241,11 @@ def BlockCache.evict (s : BlockCache) : BlockCache :=
         | none => s.map }
   else s
 
+/-- the insertion at the end of `GetBlock` (make room, queue the hash, store the block) — performed
+    without looking whether the hash got cached meanwhile -/
+def BlockCache.insert (s : BlockCache) (h b : Nat) : BlockCache :=
+  { fifo := s.evict.fifo ++ [h], map := setKey s.evict.map h b }
+
 /-- `GetBlock` -/
 def getBlock (db : BlockDb) (s : BlockCache) (h : Nat) : Option Nat × BlockCache :=
   match s.map.lookup h with
@@ -244,7 +253,16 @@ def getBlock (db : BlockDb) (s : BlockCache) (h : Nat) : Option Nat × BlockCach
   | none =>
     match db.lookup h with
     | none => (none, s)
-    | some b => (some b, { fifo := s.evict.fifo ++ [h], map := setKey s.evict.map h b })
+    | some b => (some b, s.insert h b)
+
+/-- two concurrent `GetBlock` calls for one hash that both miss: both insert -/
+def getBlockRace (db : BlockDb) (s : BlockCache) (h : Nat) : Option Nat × BlockCache :=
+  match s.map.lookup h with
+  | some b => (some b, s)
+  | none =>
+    match db.lookup h with
+    | none => (none, s)
+    | some b => (some b, (s.insert h b).insert h b)
 
 /-- `dbStoreBlock`: write once -/
 def storeBlock (db : BlockDb) (h b : Nat) : BlockDb :=
